@@ -45,6 +45,8 @@ def lemmas(tier):
                              "Map, Parse) on every object" % (T + 4),
                         bound="declared tape = %d words, tags = those of a well-formed tape with one byte symbolic, all value words symbolic, message 2 bytes, fresh Serializer" % (T + 4),
                         expect_reach=["Z5.returned", "Z5.accepted"]))
+    if tier == "quick":
+        return ls
     # objects with one deviating tag on 7-word tapes (the smallest size at which an object member's value can be a container or a root)
     ls.append(Lemma("Z5.deviation.T7.objects", "verifHarness_Z5_Deviation", F, splits=[{"T": 3, "api": 2, "nops": 0}], split_depth="auto",
                     intr=ChunkIntrinsics, scale=SCALE, opts={"make_assume_max": 24},
